@@ -8,6 +8,13 @@ export CARGO_NET_OFFLINE=true CARGO_BUILD_JOBS=8
 git -C /repo worktree remove --force $WT 2>/dev/null
 git -C /repo worktree add -q --detach $WT HEAD || exit 2
 declare -A DEMO=(
+ [C06e_heredoc_empty_delimiter]="-p yash-syntax --test c06e_heredoc_empty_delimiter"
+ [C02e_stop_ends_wait_without_job_control]="-p yash-semantics --test c02e_stopped_subshell"
+ [C07e_clause_delimiter_command_name]="-p yash-builtin --test c07e_typeset_fp_roundtrip"
+ [C04e_trim_pattern_unescaped]="-p yash-semantics --test c04e_trim_escape"
+ [C05e_nonascii_collating_in_complement]="-p yash-semantics --test c05e_nonascii_bracket"
+ [C01e_ifs_read_before_expansion]="-p yash-semantics --test c01e_ifs_after_expansion"
+ [C03e_unicode_space_tokenizer]="-p yash-arith -p yash-semantics -E test(c03e)"
  [C01_read_escaped_trailing]="-p yash-builtin --test seeded_c01"
  [C02_for_resets_status]="-p yash-semantics c02_demo"
  [C03_shl_overflow]="-p yash-arith --test seeded_c03_shift_left_overflow"
